@@ -115,7 +115,7 @@ def run(rep, tier, seed):
     two = [list(p) for p in itertools.product(pats1, repeat=2)]
     three = [list(p) for p in itertools.product(pats1, repeat=3)]
     rng0 = random.Random(sub_seed(seed, "c09"))
-    if tier == "quick":
+    if tier != "thorough":
         pats = two + rng0.sample(three, 80)
         rep.extra["exhaustive_space"] = "all 81 variable-sharing patterns of two operands (arity 1-2 over x,y,z, permuted arguments) + 80 sampled of the 729 three-operand patterns"
     else:
